@@ -4,6 +4,7 @@ import Proofs.OptionsFuel
 import Proofs.OptionsPerm
 import Proofs.OptionsNoGit
 import Proofs.OptionsSpec
+import Proofs.OptionsPost
 /-!
 C13 — option values resolve by the documented precedence, deterministically.
 
@@ -146,6 +147,51 @@ example : (effective sortedNames both "width", effective sortedNames both "tabs"
 example : effective sortedNames { both with params := [("tabs", "x"), ("navigate", "yes")] } "tabs" = .git "3" ∧
     effective sortedNames { both with params := [("tabs", "x"), ("navigate", "yes")] } "navigate" = .git "false" := by
   decide
+
+/-! ### The statements of `set_options` around the macro -/
+
+/-- `post_processing_respects_sources`. A value that came from a source — command line, main
+    `[delta]` section (file or `GIT_CONFIG_PARAMETERS`), a custom feature section, a builtin
+    feature — is final: no statement of `set_options` rewrites it; only clap's built-in default
+    may be rewritten (the side-by-side `normal`→`syntax` rule). The one documented exception is the
+    `--color-only` block (`side-by-side`, `*-decoration-style`), excluded by `hco`. Rests on two
+    facts about the statement list the extractor regenerates from `set_options`
+    (`sbs_rule_runs_before_macro`, `post_statements_allowed`). Not covered: the options in
+    `uninterpretedOptions` (`true-color` alias, `navigate`/`syntax-theme` environment fall-backs,
+    `light`/`dark`, `whitespace-error-style`), whose statements the model does not interpret. -/
+theorem post_processing_respects_sources (π : List Name) (inp : Inputs) (o : Name)
+    (hsrc : effective π inp o ≠ .dflt)
+    (hco : o ∈ colorOnlyResetOptions →
+      valIsTrue (effective π inp "color-only") = false) :
+    finalValue π inp o = effective π inp o := by
+  unfold finalValue finalWith effective at *
+  exact foldl_fixed _ _ _ (fun s hs => applyStmt_fixed _ _ _ o _ s hs hsrc hco)
+
+/-- `--side-by-side`, `[delta] minus-style = normal "#3f0001"`,
+    `[delta "a"] minus-emph-style = normal red` with `--features a`. -/
+def sbsNormal : Inputs :=
+  { noInputs with
+    cli := [("side-by-side", "true")]
+    cliFeatures := some "a"
+    configFile := some
+      { main := [("minus-style", "normal \"#3f0001\"")],
+        sections := [("a", [("minus-emph-style", "normal red")])], other := [] } }
+
+-- values from the main section and from a custom feature survive side-by-side; the clap default does not
+example : finalValue sortedNames sbsNormal "minus-style" = .git "normal \"#3f0001\"" ∧
+    finalValue sortedNames sbsNormal "minus-emph-style" = .git "normal red" ∧
+    finalValue sortedNames { sbsNormal with configFile := none } "minus-style" = .pre "syntax auto" ∧
+    finalValue sortedNames { sbsNormal with cli := [] } "minus-style" = .git "normal \"#3f0001\"" := by
+  decide
+example : uninterpretedOptions =
+    ["navigate", "syntax-theme", "features", "features", "dark", "light", "syntax-theme",
+     "whitespace-error-style", "true-color"] := by decide
+-- the documented exception: `color-only` (here from the main section) resets `side-by-side`, even from the command line
+example : finalValue sortedNames
+      { sbsNormal with configFile := some { main := [("color-only", "true")], sections := [], other := [] } }
+      "side-by-side" = .post "false" ∧
+    colorOnlyResetOptions = ["commit-decoration-style", "file-decoration-style",
+      "hunk-header-decoration-style", "side-by-side"] := by decide
 
 /-! ### The gathered feature list is the documented order -/
 
